@@ -389,6 +389,41 @@ class World:
         d['canceller'] = self.canceller
         return self
 
+    async def restart_driver(self):
+        """the driver process restarts: every in-memory instance collection is rebuilt from the database by the repository's own
+        `Pool.create` / `JobPrivateInstanceManager.create` (which load the rows through `Instance.from_record`); the tables, the
+        fake workers and the clock carry on"""
+        from batch.driver.canceller import Canceller
+        from batch.driver.instance_collection import InstanceCollectionManager, JobPrivateInstanceManager, Pool
+
+        d = self.dr_app
+        icm = self.icm = InstanceCollectionManager(self.db, 'batch-worker-default-', FakeLocationMonitor(), 'us-central1', ['us-central1', 'us-east1'])
+        d['driver'] = FakeDriver(icm)
+        quiet = Discarded(self, 'pool')
+        keep_bg = self.run_background
+        self.run_background = False
+        # the rows carry the fake instance configuration the world created them with (machine type + preemptibility only): decode
+        # it back into the same stand-in instead of the cloud-specific class
+        import batch.driver.instance as _inst_mod
+
+        real_decode = _inst_mod.instance_config_from_config_dict
+        _inst_mod.instance_config_from_config_dict = lambda c: FakeInstanceConfig(c.get('machine_type', 'n1-standard-16'), c.get('preemptible', True)) if c.get('name') == 'fake' else real_decode(c)
+        try:
+            for name, cfg in self.fe_app['inst_coll_configs'].name_pool_config.items():
+                self.pools[name] = await Pool.create(d, self.db, icm, None, 'batch-worker-default-', cfg, d['async_worker_pool'], quiet)
+            self.jpim = await JobPrivateInstanceManager.create(d, self.db, icm, None, 'batch-worker-default-', self.fe_app['inst_coll_configs'].jpim_config, quiet)
+            d['driver'].job_private_inst_manager = self.jpim
+            self.canceller = Canceller(d)
+        finally:
+            self.run_background = keep_bg
+            _inst_mod.instance_config_from_config_dict = real_decode
+        d['canceller'] = self.canceller
+        self.instances = {}
+        for ic in list(self.pools.values()) + [self.jpim]:
+            for inst in ic.name_instance.values():
+                self.instances[inst.name] = inst
+        self.n_driver_restarts = getattr(self, 'n_driver_restarts', 0) + 1
+
     async def _front_end_startup(self, fe, app):
         """run the service's own `on_startup` (so that whatever it puts into the app is there), with the outside world replaced:
         HTTP session, database handle (the world's), credentials, cloud config, file store, background task manager"""
